@@ -1,5 +1,5 @@
 (* Model/C03Run.v - case types and checker evaluated on harness-generated cases (C03) *)
-From ReqV Require Export Lib.Bytes Model.BodyFraming.
+From ReqV Require Export Lib.Bytes Model.BodyFraming Model.StreamBody.
 
 (* what the harness saw for one exchange: error from the call, or the call succeeded and
    io.ReadAll(resp.Body) ended with [e] after [dlen] bytes; [prefix_ok]: the Go side
@@ -35,7 +35,16 @@ Definition gz_matches (z : bytes) (plain_len : N) (o : h1_outcome) (s : option (
   | _, _ => false
   end.
 
+Inductive h2_seen :=
+| H2SeenCallErr
+| H2SeenRead (e : h2err) (dlen : N) (prefix_ok : bool).
+
 Inductive c03_case :=
+(* HTTP/2: declared length, END_STREAM on HEADERS, "connection ended before any response
+   HEADERS", the stream's events, all DATA bytes sent, what the caller saw, and whether the
+   follow-up request was served by the same connection *)
+| H2Case (cl : option N) (hdr_end no_headers : bool) (evs : list h2ev) (sent : bytes)
+         (seen : h2_seen) (next_on_same_conn : bool)
 | H1GzCuts (hlen : N) (fr : framing) (wire z : bytes) (plain_len : N) (obs : list (N * option (bool * N)))
 (* one response stream cut at the listed offsets (the peer closes after k bytes) *)
 | H1Cuts (hlen : N) (fr : framing) (wire body : bytes) (obs : list (N * h1_seen))
@@ -47,6 +56,18 @@ Inductive c03_case :=
 
 Definition c03_check (c : c03_case) : bool :=
   match c with
+  | H2Case cl hdr_end no_headers evs sent seen same =>
+      if no_headers then
+        match seen with H2SeenCallErr => negb same | _ => false end
+      else
+        let '(d, e) := h2_read cl hdr_end evs in
+        match seen with
+        | H2SeenCallErr => false
+        | H2SeenRead e' dlen pok =>
+            h2err_eqb e e' && (N.of_nat (length d) =? dlen)%N && pok
+            && bytes_eqb d (firstn_N dlen sent)
+            && Bool.eqb (if hdr_end then true else h2_conn_usable evs) same
+        end
   | H1GzCuts hlen fr wire z plen obs =>
       forallb (fun ko => gz_matches z plen (h1_read hlen fr (firstn_N (fst ko) wire)) (snd ko)) obs
   | H1Cuts hlen fr wire body obs =>
